@@ -121,8 +121,15 @@ def grammar_rel(rng, n):
     return ("rel", op, a, b)
 
 
+def _alldiff_idx(rng, n):
+    idx = rng.sample(range(n), rng.randint(2, n))
+    if rng.random() < 0.05:
+        idx.insert(rng.randrange(len(idx) + 1), rng.choice(idx))  # a variable listed twice never differs from itself
+    return idx
+
+
 def sum_con(rng, n, vars_, kmax=5):
-    k = rng.randint(1, kmax)
+    k = rng.randint(1, kmax) if rng.random() > 0.04 else 0  # the empty sum is a sum (= 0)
     idx = [rng.randrange(n) for _ in range(k)]  # repeated variables allowed
     lo = sum(vars_[i][1] for i in idx)
     hi = sum(vars_[i][2] for i in idx)
@@ -148,7 +155,7 @@ def _gen_spec(stratum, rng):
             if r < 0.55:
                 cons.append(supported_rel(rng, n))
             elif r < 0.75 and n >= 2:
-                cons.append(("all_different", rng.sample(range(n), rng.randint(2, n))))
+                cons.append(("all_different", _alldiff_idx(rng, n)))
             elif r < 0.9:
                 cons.append(sum_con(rng, n, vars_, 3))
             else:
@@ -161,7 +168,7 @@ def _gen_spec(stratum, rng):
         n = len(vars_)
         cons = [grammar_rel(rng, n) for _ in range(rng.randint(1, 3))]
         if rng.random() < 0.25 and n >= 2:
-            cons.append(("all_different", rng.sample(range(n), rng.randint(2, n))))
+            cons.append(("all_different", _alldiff_idx(rng, n)))
         return {"vars": _shrink_domains(vars_), "cons": cons}
     if stratum == "global":
         r = rng.random()
@@ -225,7 +232,7 @@ def _gen_spec(stratum, rng):
             if r < 0.5:
                 cons.append(supported_rel(rng, n))
             elif r < 0.75:
-                cons.append(("all_different", rng.sample(range(n), rng.randint(2, n))))
+                cons.append(("all_different", _alldiff_idx(rng, n)))
             else:
                 cons.append(grammar_rel(rng, n))
         return {"vars": _shrink_domains(vars_), "cons": cons}
@@ -240,7 +247,7 @@ def _gen_spec(stratum, rng):
             elif r < 0.55:
                 cons.append(supported_rel(rng, n))
             elif r < 0.7:
-                cons.append(("all_different", rng.sample(range(n), rng.randint(2, n))))
+                cons.append(("all_different", _alldiff_idx(rng, n)))
             elif r < 0.88:
                 cons.append(sum_con(rng, n, vars_, 4))
             else:
